@@ -245,7 +245,16 @@ def _protect(s):
     return s
 
 
-def render_external(tables, hdr, style=0, eol='\n', final_newline=True):
+def _num_external(v, numfmt, i):
+    """Integers as other tools print them: zero padded, explicit plus sign."""
+    if numfmt == 'padded' and isinstance(v, int) and not isinstance(v, bool):
+        if v >= 0:
+            return ('+%d' % v) if i % 3 == 2 else ('%0*d' % (len(str(v)) + 1 + i % 3, v))
+        return '-%0*d' % (len(str(-v)) + i % 2, -v)
+    return None
+
+
+def render_external(tables, hdr, style=0, eol='\n', final_newline=True, numfmt='plain'):
     """A yanny file as somebody else's tool might have written it (the external
     actor): same conservative quoting as the library, but with variable-length
     `char x[]` declarations where a column asks for them.  Independent of pydl."""
@@ -287,8 +296,9 @@ def render_external(tables, hdr, style=0, eol='\n', final_newline=True):
             cells = []
             for c, v in zip(t['columns'], r):
                 if c.get('len', 0):
-                    cells.append('{' + ' '.join(_protect(x) for x in v) + '}')
+                    cells.append('{' + ' '.join(_num_external(x, numfmt, n) or _protect(x)
+                                                for n, x in enumerate(v)) + '}')
                 else:
-                    cells.append(_protect(v))
+                    cells.append(_num_external(v, numfmt, len(cells)) or _protect(v))
             out.append(' '.join([t['name']] + cells))
     return (eol.join(out) + (eol if final_newline else '')).encode('utf-8')
